@@ -122,10 +122,29 @@ class C01(Property):
                     ops.append({'k': 'del', 'n': nm})
             ops.append({'k': 'get'})
             ev = self.gen_event(rng, cur or names)
-            yield {'kind': 'memo', 'ptypes': ptypes, 'ops': ops, 'event': ev}
+            c = {'kind': 'memo', 'ptypes': ptypes, 'ops': ops, 'event': ev}
+            yield c
+        for i in range(100 if tier == 'quick' else 2000):
+            # the event type has a child event type (its parent definition maps the hashed properties), and the ontology is
+            # used (validated, written, serialized, compared, used as update source) between hashing; the strategies of the
+            # other properties change
+            names = gen.rand_subset(rng, gen.PROP_NAMES, 2, 4)
+            ptypes = [[nm, 'match' if k == 0 else rng.choice(['match', 'any', 'add'])] for k, nm in enumerate(names)]
+            loose = [nm for nm, m in ptypes if m != 'match']
+            ops = []
+            for _ in range(rng.randint(2, 7)):
+                r = rng.random()
+                if r < 0.3:
+                    ops.append({'k': 'get'})
+                elif r < 0.8 or not loose:
+                    ops.append({'k': 'use', 'how': rng.choice(['validate', 'validate', 'write', 'xml', 'update', 'compare'])})
+                else:
+                    ops.append({'k': 'set', 'n': rng.choice(loose), 's': rng.choice(['any', 'add', 'set'])})
+            ops.append({'k': 'get'})
+            yield {'kind': 'memo', 'ptypes': ptypes, 'ops': ops, 'event': self.gen_event(rng, names), 'child': True}
 
     # ---- implementation ------------------------------------------------------------------
-    def build_ontology(self, ptypes):
+    def build_ontology(self, ptypes, with_child=False):
         from edxml.ontology import Ontology
         o = Ontology()
         o.create_object_type('o', data_type='string:0:mc:u')
@@ -135,16 +154,42 @@ class C01(Property):
             p = et.create_property(name, 'o').make_optional().make_multivalued()
             p.set_merge_strategy(merge)
         et.create_attachment('att')
+        if with_child:
+            # a child event type whose parent is t: ontology validation then looks at the hashed properties of t
+            child = o.create_event_type('tchild')
+            for name, _merge in ptypes:
+                child.create_property(name, 'o').make_optional()
+            # (make_child maps the hashed properties of the parent by name)
+            child.make_child('of', et.make_parent('with', child))
         return o, et
 
     def observe(self, case):
         import edxml
-        o, et = self.build_ontology(case['ptypes'])
+        o, et = self.build_ontology(case['ptypes'], with_child=case.get('child', False))
         if case['kind'] == 'memo':
             outs = []
             for op in case['ops']:
                 if op['k'] == 'get':
                     outs.append(sorted(et.get_hashed_properties().keys()))
+                    continue
+                if op['k'] == 'use':
+                    # the ontology is used in a way that must not change it: validated, serialized, written, compared,
+                    # used to update another ontology (all of which may consult the hashed properties)
+                    try:
+                        if op['how'] == 'validate':
+                            o.validate()
+                        elif op['how'] == 'xml':
+                            o.generate_xml()
+                        elif op['how'] == 'write':
+                            edxml.EDXMLWriter(io.BytesIO()).add_ontology(o).close()
+                        elif op['how'] == 'update':
+                            from edxml.ontology import Ontology
+                            Ontology().update(o)
+                        elif op['how'] == 'compare':
+                            o == o
+                    except Exception:
+                        pass
+                    outs.append(None)
                     continue
                 if op['k'] == 'set':
                     et[op['n']].set_merge_strategy(op['s'])
@@ -184,13 +229,16 @@ class C01(Property):
     # ---- model ---------------------------------------------------------------------------
     def requests(self, case):
         if case['kind'] == 'memo':
-            return [{'op': 'memo', 'props': case['ptypes'], 'ops': [dict(op, k='add') if op['k'] == 'addu' else op for op in case['ops']]}]
+            # using the ontology is no operation of the model
+            mops = [dict(op, k='add') if op['k'] == 'addu' else op for op in case['ops'] if op['k'] != 'use']
+            return [{'op': 'memo', 'props': case['ptypes'], 'ops': mops}]
         hashed = [n for n, m in case['ptypes'] if m == 'match']
         return [{'op': 'hash', 'fn': case['fn'], 'enc': case['enc'], 'hashed': hashed, 'event': case['event']}]
 
     def predict(self, case, replies):
         if case['kind'] == 'memo':
-            outs = replies[0]['outs']
+            it = iter(replies[0]['outs'])
+            outs = [None if op['k'] == 'use' else next(it) for op in case['ops']]
             final = outs[-1]
             ev = case['event']
             pairs = [(p, v) for p, vs in ev['props'] for v in vs]
